@@ -46,9 +46,21 @@ package lazy
 // After any clear the transition table must not expose a transition of the previous epoch.
 //@ spec func noStaleTrans(c *DFACache) bool = forall i :: 0 <= i && i < len(c.flatTrans) ==> c.flatTrans[i] == InvalidState
 
-//@ trusted func newStartTableFromByteMap
-//@ trusted func initStartStates
+// start-state table: a slot that is not InvalidState is taken as a cached start state by StartTable.Get, so
+// "uninitialised" means every slot reads InvalidState
+//@ spec func startsInvalid(st *StartTable) bool = forall a, k :: 0 <= a && a < 2 && 0 <= k && k < 5 ==> st.states[a][k] == InvalidState
+//@ func initStartStates
+//@   props C13 C14 C07
+//@   requires st != nil
 //@   modifies st.states
+//@   ensures startsInvalid(st)
+//@   loop 1: invariant 0 <= i && i <= 2
+//@   loop 1: invariant forall a, k :: 0 <= a && a < i && 0 <= k && k < 5 ==> st.states[a][k] == InvalidState
+//@   loop 1: decreases 2 - i
+//@   loop 2: invariant 0 <= j && j <= 5 && 0 <= i && i < 2
+//@   loop 2: invariant forall a, k :: 0 <= a && a < i && 0 <= k && k < 5 ==> st.states[a][k] == InvalidState
+//@   loop 2: invariant forall k :: 0 <= k && k < j ==> st.states[i][k] == InvalidState
+//@   loop 2: decreases 5 - j
 
 //@ func (*DFACache).ClearKeepMemory
 //@   props C13 C14 C20 C07
@@ -56,6 +68,7 @@ package lazy
 //@   modifies c.*
 //@   ensures noStaleTrans(c)
 //@   ensures len(c.stateList) == 0 && c.nextID == StateID(c.stride) && c.clearCount == old(c.clearCount) + 1
+//@   ensures forall a, k :: 0 <= a && a < 2 && 0 <= k && k < 5 ==> c.startTable.states[a][k] == InvalidState
 //@   ensures c.stride == old(c.stride) && c.capacityBytes == old(c.capacityBytes)
 
 //@ func (*DFACache).Reset
@@ -64,6 +77,7 @@ package lazy
 //@   modifies c.*
 //@   ensures noStaleTrans(c)
 //@   ensures len(c.stateList) == 0 && c.nextID == StateID(c.stride) && c.clearCount == 0 && c.hits == 0 && c.misses == 0
+//@   ensures forall a, k :: 0 <= a && a < 2 && 0 <= k && k < 5 ==> c.startTable.states[a][k] == InvalidState
 //@   ensures c.stride == old(c.stride) && c.capacityBytes == old(c.capacityBytes)
 
 //@ func (*DFACache).Clear
@@ -72,6 +86,7 @@ package lazy
 //@   modifies c.*
 //@   ensures noStaleTrans(c)
 //@   ensures len(c.stateList) == 0 && c.nextID == StateID(c.stride) && c.clearCount == 0 && c.hits == 0 && c.misses == 0
+//@   ensures forall a, k :: 0 <= a && a < 2 && 0 <= k && k < 5 ==> c.startTable.states[a][k] == InvalidState
 //@   ensures c.stride == old(c.stride) && c.capacityBytes == old(c.capacityBytes)
 
 //@ func (*DFACache).ResetClearCount
